@@ -137,6 +137,25 @@ def sample_streams(rnd, n_streams, n_records):
     return out
 
 
+def fixed_streams():
+    """hand-made record sequences for framing-level checks: a type whose fields change while its name stays (schema
+    change), in both orders and interleaved; two types whose identifiers coincide; a type without fields"""
+    from flow.record import RecordDescriptor
+
+    A = RecordDescriptor("s/a", [("string", "a"), ("varint", "n")])
+    A2 = RecordDescriptor("s/a", [("varint", "a")])
+    A3 = RecordDescriptor("s/a", [("string", "a"), ("varint", "n"), ("string", "more")])
+    X = RecordDescriptor("t/x", [("string", "a"), ("string", "b")])
+    Xc = RecordDescriptor("t/x", [("string", "astringb")])
+    Z = RecordDescriptor("s/z", [])
+    kw = dict(_generated=GEN)
+    return [
+        [A("one", 1, **kw), A2(2, **kw), A("three", 3, **kw), A2(4, **kw), A3("five", 5, "m", **kw), A("six", 6, **kw)],
+        [A2(1, **kw), A("two", 2, **kw), A2(3, **kw), Z(**kw), A3("x", 4, "y", **kw), A3("x", 5, "z", **kw)],
+        [X("1", "2", **kw), Xc("3", **kw), X("4", "5", **kw), Xc("6", **kw)],
+    ]
+
+
 def random_values(T, rnd, n):
     """seeded random values inside the classes of a type (used on top of the boundary representatives)"""
     import struct
